@@ -2,6 +2,7 @@
 """Prompt for a behaviour-preserving refactoring agent (used to test the checks for false alarms)."""
 import json, sys
 pid, focus, root = sys.argv[1], int(sys.argv[2]), sys.argv[3]
+style = sys.argv[4] if len(sys.argv) > 4 else "any"
 for l in open('/verif/properties.jsonl'):
     p = json.loads(l)
     if p['id'] == pid:
@@ -9,6 +10,9 @@ for l in open('/verif/properties.jsonl'):
 mech = p['anchors']['mechanism']
 mlist = "\n".join("    - %s (%s)" % (m['name'], m['where']) for m in mech)
 f = mech[focus % len(mech)]
+STYLE = ""
+if style == "micro":
+    STYLE = " This time do NOT extract new helper functions or methods: make several small in-place edits instead (renaming locals/parameters/receivers, inverting an if/else, merging or splitting nested ifs, `x := f(); if x ...` <-> `if x := f(); ...`, switch <-> if chain, reordering independent statements or declarations, named constants for literals, index loop <-> range, `var x T` <-> `x := T{}`, combining or splitting declarations, `if err != nil { return err }; return nil` <-> `return err`, De Morgan on conditions, early return <-> nested block)."
 print(f"""You are helping test a verification effort for the open-source Go project VerizonDigital/vflow (an IPFIX / NetFlow v5/v9 / sFlow UDP collector). You have your own scratch git worktree of the repository at {root}/{pid}/wt (module path github.com/EdgeCast/vflow). Work ONLY inside {root}/{pid}/ . Never read or write /repo or /verif.
 
 Every shell call needs: export GOFLAGS=-mod=mod GOPROXY=off GOSUMDB=off GOTOOLCHAIN=local GOWORK=off   (the sandbox has no network; nothing can be downloaded).
@@ -20,7 +24,7 @@ Here is a behavioural property the project satisfies today:
   Mechanisms in the code the property rests on (line numbers may have drifted a little):
 {mlist}
 
-Your task: produce ONE realistic, strictly BEHAVIOUR-PRESERVING refactoring of the code that implements this property, the kind of clean-up a maintainer would merge: for example rename local variables or parameters, extract a helper function or inline one, turn an if/else chain into a switch (or back), restructure early returns, change a loop's form (index loop <-> range), reorder statements that are independent of each other, introduce a named constant, hoist a repeated sub-expression into a local, split a long function, merge duplicated code into one helper, re-word log/error texts that nothing depends on. Prefer the code around this mechanism: "{f['name']}" ({f['where']}).
+Your task: produce ONE realistic, strictly BEHAVIOUR-PRESERVING refactoring of the code that implements this property, the kind of clean-up a maintainer would merge: for example rename local variables or parameters, extract a helper function or inline one, turn an if/else chain into a switch (or back), restructure early returns, change a loop's form (index loop <-> range), reorder statements that are independent of each other, introduce a named constant, hoist a repeated sub-expression into a local, split a long function, merge duplicated code into one helper, re-word log/error texts that nothing depends on. Prefer the code around this mechanism: "{f['name']}" ({f['where']}).{STYLE}
 
 Hard requirements:
   1. For EVERY input, schedule and configuration the program must behave exactly as before (same outputs, same errors and error classes, same side effects, same concurrency discipline, same allocation/aliasing behaviour that the property could depend on). If you are not sure an edit preserves behaviour, do not make it. Do NOT fix bugs, do NOT add or remove checks, do NOT change constants' values, types of exported things, or the public API.
